@@ -8,6 +8,9 @@ from manifest_texts import TEXTS, HOOK_COMMITS
 
 BASELINE_OFF = "cd /repo && go test -json -vet=off -count=1 -timeout 25m ./..."
 ALL = ["C%02d" % i for i in range(1, 20)]
+# only checks the lead has accepted are claimed (checks.d/READY.txt, one id per line)
+READY = set(open(os.path.join(ROOT, "checks.d", "READY.txt")).read().split())
+PROPS = {k: v for k, v in PROPS.items() if k in READY}
 
 checks = []
 for pid in ALL:
